@@ -272,7 +272,18 @@ class CompleteStageHandler(
                     # flight drive the parent through their own completion
                     # messages; a CompleteStage arriving meanwhile is stale or
                     # redelivered and must not re-plan or finalize the stage.
-                    in_flight_children = [s for s in stage.first_after_stages() if not s.status.is_complete]
+                    # A NOT_STARTED after-stage only counts once the after
+                    # phase (or on-failure planning) has begun and queued its
+                    # StartStage: after-stages declared with the workflow whose
+                    # parent failed before reaching them never start, and
+                    # waiting for them would leave the stage RUNNING forever.
+                    already_planned = bool(stage.context.get("_on_failure_planned", False))
+                    after_phase_begun = already_planned or any(
+                        s.status != WorkflowStatus.NOT_STARTED for s in stage.after_stages()
+                    )
+                    in_flight_children = [
+                        s for s in stage.first_after_stages() if after_phase_begun and not s.status.is_complete
+                    ]
                     if in_flight_children:
                         if message.message_id:
                             with self.repository.transaction(self.queue) as txn:
@@ -286,7 +297,6 @@ class CompleteStageHandler(
                     # Plan on-failure stages exactly once per failure: replay
                     # after they completed must fall through to final failure
                     # handling, not spawn duplicate on-failure stages.
-                    already_planned = bool(stage.context.get("_on_failure_planned", False))
                     has_on_failure = False if already_planned else self._plan_on_failure_stages(stage)
                     if has_on_failure:
                         stage.context["_on_failure_planned"] = True
